@@ -255,7 +255,10 @@ fn dquant_suite() -> SuiteReport {
     simple_suite("dquant_updates", true, |acc| {
         for (mode, version, mname) in MODES {
             for pq in 1..=31u8 {
-                for dq in [-2i8, -1, 1, 2] {
+                // every chain of three DQUANT values (64 chains): equal signs walk into the clamps,
+                // mixed signs walk back from them
+                for chain in 0..64u32 {
+                    let dqs: [i8; 3] = [[-2i8, -1, 1, 2][(chain % 4) as usize], [-2i8, -1, 1, 2][(chain / 4 % 4) as usize], [-2i8, -1, 1, 2][(chain / 16) as usize]];
                     for inter in [false, true] {
                         let size = grid_size(mode);
                         let mut st = H263State::new(options_scal(mode, pq % 2 == 1));
@@ -291,7 +294,11 @@ fn dquant_suite() -> SuiteReport {
                                 }
                             };
                             let mut mb = Mb::new(kind);
-                            mb.dquant = dq;
+                            mb.dquant = dqs[match n {
+                                1 => 0,
+                                3 => 1,
+                                _ => 2,
+                            }];
                             for b in 0..6 {
                                 mb.blocks[b].dc = 255;
                                 let lv = if (n + b) % 2 == 0 { 10 } else { -10 };
@@ -308,8 +315,8 @@ fn dquant_suite() -> SuiteReport {
                         acc.count(true);
                         if let Err(m) = r {
                             acc.fail(
-                                json!({"kind":"params","suite":"dquant","pq":pq,"dq":dq,"inter":inter}),
-                                format!("{}: PQUANT {} with DQUANT {} at macroblocks 1,3,4 (quantizers must be {:?}...): {}", mname, pq, dq, &model.quants[..6.min(model.quants.len())], m),
+                                json!({"kind":"params","suite":"dquant","pq":pq,"dq":format!("{:?}", dqs),"inter":inter}),
+                                format!("{}: PQUANT {} with DQUANT {:?} at macroblocks 1,3,4 (quantizers must be {:?}...): {}", mname, pq, dqs, &model.quants[..6.min(model.quants.len())], m),
                             );
                             return;
                         }
@@ -317,7 +324,86 @@ fn dquant_suite() -> SuiteReport {
                 }
             }
         }
-        acc.sample(|| json!({"dquant": "PQUANT 1..=31 x DQUANT {-2,-1,1,2} applied three times (clamps reached), I and P pictures, three stream forms"}));
+        acc.sample(|| json!({"dquant": "PQUANT 1..=31 x every chain of three DQUANT values from {-2,-1,1,2} (clamps reached and left again), I and P pictures, three stream forms"}));
+    })
+}
+
+/// Blocks with two escape-coded events (every combination of the escape widths a stream form
+/// has, boundary levels of each width, both orders), at three quantizers, intra and inter.
+fn escape_pairs_suite() -> SuiteReport {
+    simple_suite("two_escapes_in_one_block", true, |acc| {
+        for (mode, version, mname) in MODES {
+            let widths: &[(bool, &[i16])] = if version == 1 { &[(false, &[1, -1, 31, 63, -63]), (true, &[1, -1, 63, 64, -64, 127, 128, -512, 1023, -1023])] } else { &[(false, &[1, -1, 63, 64, -64, 127, -127])] };
+            for q in [1u8, 8, 31] {
+                for intra in [false, true] {
+                    let first = if intra { 1u8 } else { 0 };
+                    let mut blocks: Vec<Vec<Event>> = Vec::new();
+                    for (wa, la) in widths.iter() {
+                        for (wb, lb) in widths.iter() {
+                            for a in la.iter() {
+                                for b in lb.iter() {
+                                    for (ra, rb) in [(0u8, 0u8), (2, 5), (0, 61 - first)] {
+                                        blocks.push(vec![
+                                            Event { run: ra, level: *a, force_escape: true, wide: *wa },
+                                            Event { run: rb, level: *b, force_escape: true, wide: *wb },
+                                        ]);
+                                    }
+                                }
+                            }
+                        }
+                    }
+                    let size = grid_size(mode);
+                    let mut st = H263State::new(options_scal(mode, q == 8));
+                    let mut hdr = match mode {
+                        Mode::Sorenson => Header::sorenson(version, if intra { PicType::I } else { PicType::P }, size, q),
+                        Mode::Standard => Header::standard(if intra { PicType::I } else { PicType::P }, size, q),
+                    };
+                    hdr.tr = 2;
+                    let (mbw, mbh) = hdr.mb_dims().unwrap();
+                    let mut k = 0;
+                    while k < blocks.len() {
+                        let reference = match grey_reference(&mut st, mode, version) {
+                            Ok(r) => r,
+                            Err(e) => {
+                                acc.fail(json!({"kind":"params","suite":"escape_pairs"}), e);
+                                return;
+                            }
+                        };
+                        let first_block = k;
+                        let mut mbs = Vec::new();
+                        for _ in 0..mbw * mbh {
+                            let mut mb = Mb::new(if intra { MbKind::Intra } else { MbKind::Inter });
+                            for b in 0..6 {
+                                mb.blocks[b].dc = 255;
+                                if k < blocks.len() {
+                                    mb.blocks[b].events = blocks[k].clone();
+                                    k += 1;
+                                }
+                            }
+                            mbs.push(mb);
+                        }
+                        let pic = Pic { hdr: hdr.clone(), mbs, trailing_zero_bits: 0 };
+                        let model = match reconstruct(&pic, Some(&reference)) {
+                            Ok(m) => m,
+                            Err(e) => panic!("HARNESS: invalid escape-pair picture: {}", e),
+                        };
+                        let res = match decode_bytes(&mut st, &encode_pic(&pic)) {
+                            Outcome::Ok => compare_last(&st, &model.expect).map(|_| ()),
+                            o => Err(format!("valid picture not decoded: {}", o.short())),
+                        };
+                        acc.count_n((k - first_block) as u64, (k - first_block) as u64);
+                        if let Err(m) = res {
+                            acc.fail(
+                                json!({"kind":"params","suite":"escape_pairs","mode":mname,"q":q,"intra":intra,"first_block":first_block}),
+                                format!("{} q{} {} blocks with two escapes each, blocks {:?} ..: {}", mname, q, if intra { "intra" } else { "inter" }, &blocks[first_block..(first_block + 2).min(blocks.len())], m),
+                            );
+                            return;
+                        }
+                    }
+                }
+            }
+        }
+        acc.sample(|| json!({"two_escapes": "every ordered pair of escape widths x boundary levels x three run patterns, quantizers 1/8/31, intra and inter, three stream forms"}));
     })
 }
 
@@ -394,13 +480,14 @@ pub fn run(ctx: &Ctx) -> i32 {
     reports.push(exhaustive_suite(ctx, "stream_level_grid", 3 * 31 * 2 * chunks, &move |i, acc| grid_item(i, chunks, acc)));
     reports.push(intradc_suite());
     reports.push(dquant_suite());
+    reports.push(escape_pairs_suite());
     reports.push(exhaustive_suite(ctx, "hook_inverse_rle", 31, &hook_item));
     let exhaustive = reports.iter().skip(1).all(|r| r.exhaustive);
     finish(
         ctx,
         reports,
         Summary {
-            rule: "Enumerated completely: quantizer 1..31 x every codable level (102 short events x sign; escapes +-1..127 in standard / Sorenson v0, +-1..63 and +-1..1023 in Sorenson v1) x every zig-zag position x {last, not last} x {intra, inter}, each as one block of a real picture decoded through the public API and compared with the ideal transform of the specified coefficient (C02 tie rule); all 256 INTRADC codes (0 and 128 must be rejected, 255 -> 1024) in I and P pictures; PQUANT 1..31 x DQUANT {-2,-1,1,2} chains that reach both clamps; and, through the verif-hooks re-export of the run-length decoder, the coefficient array itself for every quantizer x level -1024..1023 x position, compared for equality with sign(L)(Q(2|L|+1)-[Q even]) saturated to -2048..2047. Non-trivial = |level| >= 2 or escape form; every enumerated case is distinct.",
+            rule: "Enumerated completely: quantizer 1..31 x every codable level (102 short events x sign; escapes +-1..127 in standard / Sorenson v0, +-1..63 and +-1..1023 in Sorenson v1) x every zig-zag position x {last, not last} x {intra, inter}, each as one block of a real picture decoded through the public API and compared with the ideal transform of the specified coefficient (C02 tie rule); all 256 INTRADC codes (0 and 128 must be rejected, 255 -> 1024) in I and P pictures; PQUANT 1..31 x every chain of three DQUANT values from {-2,-1,1,2} (reaching both clamps and walking back from them); blocks with two escape-coded events in every ordered combination of escape widths and boundary levels; and, through the verif-hooks re-export of the run-length decoder, the coefficient array itself for every quantizer x level -1024..1023 x position, compared for equality with sign(L)(Q(2|L|+1)-[Q even]) saturated to -2048..2047. Non-trivial = |level| >= 2 or escape form; every enumerated case is distinct.",
             assumptions: vec!["pixel-level observation blurs a +-1 coefficient error unless it crosses a rounding boundary; the hook-level suite removes that blur".into()],
             exhaustive,
             extra: Map::new(),
@@ -429,6 +516,10 @@ pub fn replay(suite: &str, case: &Value) -> Option<Verdict> {
             None => Verdict::pass(true, 0),
         }),
         "dquant_updates" => Some(match dquant_suite().failure {
+            Some(f) => Verdict::fail(f.msg),
+            None => Verdict::pass(true, 0),
+        }),
+        "two_escapes_in_one_block" => Some(match escape_pairs_suite().failure {
             Some(f) => Verdict::fail(f.msg),
             None => Verdict::pass(true, 0),
         }),
